@@ -172,10 +172,11 @@ class ManageSieveConnection:
     async def _read_data(self) -> memoryview:
         data = bytearray()
         while True:
-            data += await self.reader.readline()
-            if not data.endswith(b'\n'):
+            line = await self.reader.readline()
+            data += line
+            if not line.endswith(b'\n'):
                 raise EOFError()
-            match = self._literal_plus.search(data)
+            match = self._literal_plus.search(line)
             if not match:
                 break
             literal_length = int(match.group(1))
